@@ -11,6 +11,8 @@
 //	| {"ev":"enq","id":s,"prio":p,"ttl":ticks,"gate":bool}  start Enqueue in its own goroutine; with gate the
 //	     goroutine is held at the yield point dpq.before_park (between mutex.Unlock and the select)
 //	| {"ev":"park","id":s}      let a held goroutine go on into its select
+//	| {"ev":"reconf","quota":q,"w":ticks,"qsize":n}   (plugin) the remedy is re-applied under the same name with another
+//	     strategy / queue size: the calls that follow belong to a new configuration epoch ("ep" in their events)
 //	| {"ev":"tick","rev":bool}  advance the clock by one tick; the timers that are due are delivered one at a
 //	     time, oldest first (rev: youngest first), each followed by a wait until everything is blocked again
 //	| {"ev":"conc","ops":[enq,...]}      arrivals started together
@@ -67,7 +69,11 @@ type Op struct {
 	Ttl  int64  `json:"ttl,omitempty"`
 	Gate bool   `json:"gate,omitempty"`
 	Rev  bool   `json:"rev,omitempty"`
-	Ops  []Op   `json:"ops,omitempty"`
+	// reconf: the remedy (same name) is re-applied with another strategy / queue size
+	Quota int64 `json:"quota,omitempty"`
+	W     int64 `json:"w,omitempty"`
+	QSize int64 `json:"qsize,omitempty"`
+	Ops   []Op  `json:"ops,omitempty"`
 }
 
 type Script struct {
@@ -92,6 +98,7 @@ type runner struct {
 	gates   map[string]*gate
 	running sync.WaitGroup
 	out     int // outstanding Enqueue calls
+	ep      int // configuration epoch (number of reconfigurations so far)
 }
 
 func (rn *runner) sink(point string, kv ...any) {
@@ -144,17 +151,17 @@ func (rn *runner) quiesce(what string) {
 }
 
 // the real call; true = the request may proceed
-func (rn *runner) call(o Op) bool {
+func (rn *runner) call(o Op, cfg Config) bool {
 	if rn.dpq != nil {
 		req := queue.NewRequest(o.ID, float64(o.Prio), rn.clk)
-		ok, err := rn.dpq.Enqueue(req, time.Duration(o.Ttl)*tick, rn.cfg.QSize)
+		ok, err := rn.dpq.Enqueue(req, time.Duration(o.Ttl)*tick, cfg.QSize)
 		if err != nil {
 			vh.Die("Enqueue: %v", err)
 		}
 		return ok
 	}
-	if rn.cfg.W%2 != 0 || o.Ttl%2 != 0 {
-		vh.Die("plugin mode needs whole seconds (even ticks): w=%d ttl=%d", rn.cfg.W, o.Ttl)
+	if cfg.W%2 != 0 || o.Ttl%2 != 0 {
+		vh.Die("plugin mode needs whole seconds (even ticks): w=%d ttl=%d", cfg.W, o.Ttl)
 	}
 	groups := map[string]sharedConfig.Prioritization{}
 	for p := 0; p < 8; p++ {
@@ -165,11 +172,11 @@ func (rn *runner) call(o Op) bool {
 		Remedy: &sharedConfig.Remedy{
 			Name: "r",
 			Config: sharedConfig.RemedyConfig{StrategyBasedQueue: &sharedConfig.StrategyBasedQueueConfig{
-				AllowedRequestCount: rn.cfg.Quota,
-				WindowSizeInSeconds: int(rn.cfg.W / 2),
+				AllowedRequestCount: cfg.Quota,
+				WindowSizeInSeconds: int(cfg.W / 2),
 				ResponseStatusCode:  429,
 				TTLSeconds:          float32(o.Ttl / 2),
-				QueueSize:           rn.cfg.QSize,
+				QueueSize:           cfg.QSize,
 				Prioritization: &sharedConfig.GroupPrioritization{
 					GroupBy: sharedConfig.GroupBy{HeaderName: prioHdr}, Groups: groups,
 				},
@@ -205,11 +212,12 @@ func (rn *runner) start(o Op) {
 	rn.mu.Unlock()
 	rn.running.Add(1)
 	b := rn.tr.Stamp()
+	ep, cfg := rn.ep, rn.cfg // the configuration in force when the call is made
 	go func() {
 		defer rn.running.Done()
-		ok := rn.call(o)
-		rn.tr.AddAt(b, vh.Ev{"ev": "begin", "id": o.ID, "prio": o.Prio, "ttl": o.Ttl, "ok": ok})
-		rn.tr.Add(vh.Ev{"ev": "end", "id": o.ID, "ok": ok})
+		ok := rn.call(o, cfg)
+		rn.tr.AddAt(b, vh.Ev{"ev": "begin", "id": o.ID, "prio": o.Prio, "ttl": o.Ttl, "ok": ok, "ep": ep})
+		rn.tr.Add(vh.Ev{"ev": "end", "id": o.ID, "ok": ok, "ep": ep})
 		rn.mu.Lock()
 		rn.out--
 		rn.mu.Unlock()
@@ -268,11 +276,19 @@ func main() {
 				switch e.Ev {
 				case "reset":
 					now = e.Now
+					rn.ep, rn.cfg = 0, sc.Config
 					tr.Add(vh.Ev{"ev": "reset", "now": now})
 					rn.fresh(now)
 				case "enq":
 					rn.start(e)
 					rn.quiet("enq")
+				case "reconf": // policies re-applied: same remedy name, new strategy (plugin mode)
+					if rn.plugin == nil {
+						vh.Die("reconf needs plugin mode")
+					}
+					rn.ep++
+					rn.cfg.Quota, rn.cfg.W, rn.cfg.QSize = e.Quota, e.W, e.QSize
+					tr.Add(vh.Ev{"ev": "reconf", "ep": rn.ep, "quota": e.Quota, "w": e.W, "qsize": e.QSize})
 				case "park":
 					rn.mu.Lock()
 					g := rn.gates[e.ID]
